@@ -70,6 +70,13 @@ def to_trace(log):
                 since = handed.get(c, 0)
                 committed = any(x[1] == "S" and x[2] == c and x[3] == "COMMIT" for x in log[since:i])
                 t = "serr:%d:%d" % (c, 1 if committed else 0)
+                # a send refused by the client itself (non-ASCII envelope, server without SMTPUTF8) reaches neither the wire nor the connection:
+                # for the pool the connection was handed out and comes back unused (no send event)
+                local = point == "send_err" and not any(x[1] == "S" and x[2] == c and x[3] == "CMD" for x in log[since:i]) and \
+                    any(x[1] == "O" and x[4] == "start" and isinstance(x[5], dict) and x[5].get("utf8rcpt") and
+                        any(y[1] == "O" and y[4] == "end" and y[2] == x[2] and y[3] == x[3] for y in log[i:]) for x in log[:i])
+                if local:
+                    continue
             else:
                 t = "%s:%d" % (TOK[point], c)
         toks.append(t)
@@ -231,6 +238,8 @@ def oracle(sc, r, want=("C07", "C08", "C09")):
             elif what == "FAULT":
                 if d in ("e4", "e5"):
                     state = "failed"
+                elif d in ("stall", "stall_close") and state != "start" and any(f["act"] == d and f.get("ms", 0) > sc.get("timeout_ms", 1500) + 100 for f in sc.get("faults", [])) and not sc.get("stall_is_harmless"):
+                    state = "failed"          # the client gave up on this command before the reply came
             elif what == "REPLY":
                 if d[0] in "45" and state != "quit":
                     state = "failed"
@@ -242,7 +251,12 @@ def oracle(sc, r, want=("C07", "C08", "C09")):
         res = o["res"] if isinstance(o["res"], dict) else {}
         cm = commits.get(sid, [])
         nr = o["op"].get("nrcpt", 1) or 1
-        want_to = ["r%d-%s@d.example" % (k, sid) for k in range(max(1, nr))]
+        want_to = [("R%d-%s@d.example" % (k - 1, sid)) if k % 2 == 1 else ("r%d-%s@d.example" % (k, sid)) for k in range(max(1, nr))]
+        if o["op"].get("utf8rcpt"):
+            # a non-ASCII recipient and a server without SMTPUTF8: refused by the client before anything of the transaction is on the wire
+            if "err" not in res or cm or mails.get(sid):
+                bad.append(("C07", "a send with a non-ASCII recipient to a server without SMTPUTF8 was not refused before MAIL", "%s: %s, MAIL seen: %s" % (sid, json.dumps(res)[:120], bool(mails.get(sid)))))
+            continue
         if len(cm) > 1:
             bad.append(("C07", "message committed more than once", "%s on connections %s" % (sid, [c for c, _, _ in cm])))
         if len(mails.get(sid, [])) > 1:
@@ -456,6 +470,8 @@ def gen_faults(rng, kind, n):
         ops = []
         for j in range(nsend):
             ops.append(send_op("f%d" % j, rng))
+            if rng.random() < 0.12:
+                ops[-1] = dict(ops[-1], utf8rcpt=True, nrcpt=rng.choice([1, 2]))      # refused locally: the server does not announce SMTPUTF8
             if rng.random() < 0.3:
                 ops.append({"op": "debug"})
             if rng.random() < 0.25:
@@ -517,6 +533,21 @@ def gen_maintenance(rng, kind, n):
             sc["faults"] = [{"conn": 0, "cmd": "GREET", "nth": 0, "act": "e5"}]
             sc["expect_connect_fail"] = True
             sc["family"] = "maintenance-after-refusal"
+        out.append(sc)
+    return out
+
+
+def gen_stalled_command(rng, kind, n):
+    """C08: a command other than the probe gets its reply only after the timeout: the send fails, and that connection - on which the reply
+    is still to come - is never parked or used again; the following sends succeed on another one."""
+    out = []
+    for k in range(n):
+        sc = base(rng, kind, {"max": 2, "min_idle": 0, "idle_ms": 60000}, probe_delay_us=0, reply_delay_us=0)
+        sc["timeout_ms"] = 300
+        sc["faults"] = [{"conn": None, "cmd": ["MAIL", "RCPT", "DATA", "BODY"][k % 4], "nth": 1, "act": "stall", "ms": 900}]
+        sc["senders"] = [[send_op("h0", rng), send_op("h1", rng), {"op": "sleep", "ms": 700}, send_op("h2", rng), send_op("h3", rng)]]
+        sc["after"] = [{"op": "debug"}]
+        sc["family"] = "stalled-command"
         out.append(sc)
     return out
 
